@@ -1,5 +1,5 @@
 import Driver.Common
-import GIV.Model.Txtar
+import GIV.Model.TxtarIdx
 open GIV GIV.Txtar Driver
 
 def showArchive (a : Archive) : String :=
@@ -37,27 +37,32 @@ def parseArchiveEnc (s : String) : Option Archive :=
     | _ => none
   | [] => none
 
-/-- `all <hex>`: every txtar function on one input. -/
+/-- `all <hex>`: every txtar function on one input.
+
+The driver executes the *index forms* of `GIV.Model.TxtarIdx` (near-literal transcriptions of the
+Go code: offsets, `bytes.Index`, checked slices), so the correspondence run compares Go with those;
+`GIV.Lemmas.TxtarIdx*` prove them equal to the line-structured forms of `GIV.Model.Txtar` that the
+property theorems are about (`GIV.C03.index_form_agrees`, `GIV.C14.needsQuote_index_form_agrees`, …). -/
 def step (line : String) : String :=
   match line.splitOn " " with
   | ["all", h] =>
     match fromHex h with
     | none => "bad-op"
     | some d =>
-      let p := parse d
+      let p := parseIdx d
       let pfp := match p with
         | none => "panic"
-        | some a => showOptArchive (parse (format a))
+        | some a => showOptArchive (parseIdx (format a))
       let fmt := match p with
         | none => "panic"
         | some a => toHex (format a)
-      "P=" ++ showOptArchive p ++ " F=" ++ fmt ++ " PFP=" ++ pfp ++ " NQ=" ++ showOB (needsQuote d) ++
-        " Q=" ++ showQ (quote d) ++ " U=" ++ showQ (unquote d) ++ " R=" ++ showArchive (refParse d) ++
+      "P=" ++ showOptArchive p ++ " F=" ++ fmt ++ " PFP=" ++ pfp ++ " NQ=" ++ showOB (needsQuoteIdx d) ++
+        " Q=" ++ showQ (quoteIdx d) ++ " U=" ++ showQ (unquoteIdx d) ++ " R=" ++ showOptArchive (refParseIdx d) ++
         " T=" ++ toHex (trimSpace d)
   | ["wf", enc] =>
     match parseArchiveEnc enc with
     | none => "bad-op"
-    | some a => "F=" ++ toHex (format a) ++ " P=" ++ showOptArchive (parse (format a))
+    | some a => "F=" ++ toHex (format a) ++ " P=" ++ showOptArchive (parseIdx (format a))
   | _ => "bad-op"
 
 def main : IO Unit := run step
